@@ -112,8 +112,8 @@ theorem max_tries_shape :
     maxTriesRaise = ["any([rhs.has(k) for k in intermediates.keys()])"] ∧
     maxTriesWhile = ["any([rhs.has(k) for k in intermediates.keys()]) and num_tries < max_tries"] := by decide +kernel
 
-/-- C17: only these exception classes are caught around the unit parser. -/
-theorem unit_caught : unitCaught = ["units.pint.UndefinedUnitError", "AttributeError"] := by decide +kernel
+/-- C17: every exception raised by the unit parser on a comment text is caught. -/
+theorem unit_caught : unitCaught = ["Exception"] := by decide +kernel
 
 /-- C11: the writer's relation names. `Ne` is *not* a name the grammar has (see `grammar_names`). -/
 theorem relop_table :
